@@ -276,6 +276,38 @@ def applyReqs (t : Target) (rs : List Req) : Target := rs.foldl applyReq t
 def viewOf (t : Target) (e : Entry) : View :=
   { keyExists := (t.get e.key).isSome, badData := t.bad e.key }
 
+/-! ### `replaceHashTag`
+
+  With `replaceHashTag` the target key is the snapshot key without its first
+  `{` and without the first `}` of what remains (`bytes.Replace(…, 1)` twice).
+  Both replay paths then behave exactly as on an entry that carries the
+  target key and whose native commands have the key argument rewritten
+  (bidirectional: `bisyncRdbTargetKey` + `rewriteBisyncRdbCommandKeys`; plain,
+  REPAIRED behaviour for D27: the expansion commands are rewritten too): the
+  worker replays `retag e`. -/
+
+def removeFirst (b : UInt8) : Bytes → Bytes
+  | [] => []
+  | x :: xs => if x = b then xs else x :: removeFirst b xs
+
+def stripTag (k : Bytes) : Bytes := removeFirst 125 (removeFirst 123 k)
+
+/-- rewrite the key argument of a native command (first argument; second for XGROUP) -/
+def rewriteCmd (src tgt : Bytes) (c : Cmd) : Cmd :=
+  if c.name = sXGROUP then
+    match c.args with
+    | sub :: k :: rest => if k = src then { c with args := sub :: tgt :: rest } else c
+    | _ => c
+  else
+    match c.args with
+    | k :: rest => if k = src then { c with args := tgt :: rest } else c
+    | _ => c
+
+def retag (replaceHashTag : Bool) (e : Entry) : Entry :=
+  if replaceHashTag && (e.otype = .data || e.otype = .module) then
+    { e with key := stripTag e.key, cmds := e.cmds.map (rewriteCmd e.key (stripTag e.key)) }
+  else e
+
 /-! ### a replay worker over a list of entries (one connection) -/
 
 structure Run where
